@@ -116,7 +116,8 @@ class Explorer:
             m.domains.sync = self.cds[0]
         else:
             wn, rn = getattr(self.make, "domains", None) or ("write", "read")
-            self.cds = [ClockDomain(wn), ClockDomain(rn)]
+            wrl, rrl = getattr(self.make, "reset_less", None) or (False, False)
+            self.cds = [ClockDomain(wn, reset_less=wrl), ClockDomain(rn, reset_less=rrl)]
             setattr(m.domains, wn, self.cds[0])
             setattr(m.domains, rn, self.cds[1])
         self.sim = Simulator(m)
